@@ -2,6 +2,7 @@ package main
 
 import (
 	"fmt"
+	"go/token"
 	"strings"
 
 	"golang.org/x/tools/go/ssa"
@@ -63,6 +64,39 @@ func (ru *Rule) guard(fn *ssa.Function, what string, targets []ssa.Instruction, 
 	}
 	for _, t := range targets {
 		t := t
+		// `return check(..)`: the exit succeeds exactly when the returned value is nil — as if `if v != nil` stood in
+		// front of it. When that very test is the guard, the exit passes it by construction.
+		if ret, isRet := t.(*ssa.Return); isRet && edges != nil {
+			if i := errResultIndex(fn); i >= 0 && i < len(ret.Results) && !isNilConst(retVal(ret, i)) {
+				v := ret.Results[i]
+				if u, isLd := v.(*ssa.UnOp); isLd && u.Op == token.MUL {
+					if sv := loadedValue(u); sv != nil {
+						v = sv // through the defer spill
+					}
+				}
+				syn := &ssa.BinOp{Op: token.NEQ, X: v, Y: ssa.NewConst(nil, v.Type())}
+				b := t.Block()
+				old, had := condOverride[b]
+				condOverride[b] = syn
+				sat := func() (ok bool) {
+					defer func() {
+						if recover() != nil {
+							ok = false // a predicate that looks at the block's successors: not a nil test
+						}
+					}()
+					return edges(b, 1)
+				}()
+				if had {
+					condOverride[b] = old
+				} else {
+					delete(condOverride, b)
+				}
+				if sat {
+					ru.OK(fmt.Sprintf("%s: %s guarded-by %s", fnKey(fn), what, guardName), instrPos(t), 1, "the value returned is the guard's own verdict")
+					continue
+				}
+			}
+		}
 		// a return whose error value is not a constant is a failing exit on the paths that found it non-nil
 		q := &Cut{Fn: fn, From: from, Target: func(in ssa.Instruction) bool { return in == t }, EdgeCut: anyEdge(edges, failCut(t)), Assume: assume}
 		w, n := q.Run(c)
@@ -98,11 +132,20 @@ func (ru *Rule) onlyIn(what string, pred func(ssa.Instruction) bool, scope []*ss
 	}
 	n := 0
 	for _, f := range scope {
-		for _, in := range findInstrs(f, pred) {
+		for _, in := range findInstrsIn(f, pred) {
 			n++
-			root := fnKey(c.Root(f))
+			// a site inside a helper extracted since the pinned commit belongs to the pinned function(s) that call it
+			okRoot := allow[fnKey(f)]
+			if !okRoot {
+				okRoot = true
+				for _, r := range c.PinnedRoots(f) {
+					if !allow[fnKey(r)] {
+						okRoot = false
+					}
+				}
+			}
 			key := fmt.Sprintf("%s in %s", what, fnKey(f))
-			if allow[root] || allow[fnKey(f)] {
+			if okRoot {
 				ru.OK(key, instrPos(in), 1, "")
 			} else {
 				ru.Fail(key, instrPos(in), fmt.Sprintf("%s is only allowed in %v", what, allowed), "")
